@@ -367,6 +367,17 @@ fn eos_reader(p: &EosParams) {
                     );
                     return;
                 }
+                // "Never" was the answer to that request. A smaller one that
+                // the remainder covers is a different question.
+                let left = rb.len();
+                drop(rb);
+                if by_wait && left >= 1 && r.wait_for_read(left) {
+                    violate(
+                        "told-with-data",
+                        format!("after 'never' for {need}, a request for the {left} buffered samples was also answered 'never'"),
+                    );
+                    return;
+                }
                 break;
             }
             if gone_before && remaining_before < need {
